@@ -7,12 +7,16 @@
 set -u
 ROOT=/verif
 OV=$ROOT/overlay/c12
-SCRATCH=/var/tmp/vf-c12-scratch
+# Defaults: /repo's working tree, build output and verdict files under /verif. The overrides exist for tools/automut.py only
+# (isolated mutation sweep on scratch copies of the tree; registered checks never set them).
+SRC="${VERIF_REPO_SRC:-/repo}"
+OUT="${VERIF_OUT_DIR:-$ROOT}"
+SCRATCH="${VERIF_C12_SCRATCH:-/var/tmp/vf-c12-scratch}"
 export CARGO_NET_OFFLINE=true CARGO_TERM_COLOR=never RUST_BACKTRACE=0
-export CARGO_TARGET_DIR=$ROOT/target/c12
+export CARGO_TARGET_DIR="${VERIF_C12_TARGET:-$ROOT/target/c12}"
 # the repository's release profile uses LTO with one codegen unit (minutes per build); not needed here
 export CARGO_PROFILE_RELEASE_LTO=false CARGO_PROFILE_RELEASE_CODEGEN_UNITS=16 CARGO_PROFILE_RELEASE_STRIP=false CARGO_PROFILE_RELEASE_DEBUG_ASSERTIONS=false
-mkdir -p "$ROOT/target" "$ROOT/evidence" "$ROOT/replays"
+mkdir -p "$ROOT/target" "$OUT/target" "$OUT/evidence" "$OUT/replays"
 TIER=quick; REPLAY=""; PREBUILD=0; TESTNAME=verif_c12::verif_c12; PROP=C12
 while [ $# -gt 0 ]; do
   case "$1" in
@@ -25,12 +29,12 @@ while [ $# -gt 0 ]; do
   esac
   shift
 done
-exec 9>"$ROOT/target/.c12.lock"; flock 9
+exec 9>"$OUT/target/.c12.lock"; flock 9
 cleanup() { rm -rf "$SCRATCH"; }
 trap cleanup EXIT
 rm -rf "$SCRATCH"; mkdir -p "$SCRATCH"
 # sources only (mtimes preserved so that the cached build output in $CARGO_TARGET_DIR stays valid)
-rsync -a --exclude target --exclude .git --exclude fuzz /repo/ "$SCRATCH/"
+rsync -a --exclude target --exclude .git --exclude fuzz "$SRC/" "$SCRATCH/"
 cd "$SCRATCH" || exit 3
 # drop the fuzz member (not copied) and point the loom dependency at the facade
 sed -i 's/, "fuzz"\]/]/' Cargo.toml
@@ -45,8 +49,8 @@ s+='\n#[cfg(all(test, loom, penguin_rs_verif))]\n#[path = "$OV/verif_c12.rs"]\nm
 open(p,'w').write(s)
 PY
 # keep the original mtimes of the two edited files so that an unchanged tree is not rebuilt
-touch -r /repo/penguin-mux/Cargo.toml "$SCRATCH/penguin-mux/Cargo.toml"; touch -r /repo/penguin-mux/src/task.rs "$SCRATCH/penguin-mux/src/task.rs"; touch -r /repo/Cargo.toml "$SCRATCH/Cargo.toml"
-LOG=$(mktemp "$ROOT/target/.c12.XXXXXX.log")
+touch -r "$SRC/penguin-mux/Cargo.toml" "$SCRATCH/penguin-mux/Cargo.toml"; touch -r "$SRC/penguin-mux/src/task.rs" "$SCRATCH/penguin-mux/src/task.rs"; touch -r "$SRC/Cargo.toml" "$SCRATCH/Cargo.toml"
+LOG=$(mktemp "$OUT/target/.c12.XXXXXX.log")
 export RUSTFLAGS="--cfg loom --cfg penguin_rs_verif -A warnings"
 if [ $PREBUILD -eq 1 ]; then
   cargo test -p penguin-mux --lib --release --no-default-features --features std,tokio --no-run >"$LOG" 2>&1; rc=$?
@@ -59,7 +63,7 @@ if ! cargo test -p penguin-mux --lib --release --no-default-features --features 
   rm -f "$LOG"; exit 3
 fi
 if [ "$TIER" = thorough ]; then WD="${VERIF_WATCHDOG:-7200}"; else WD="${VERIF_WATCHDOG:-1200}"; fi
-VERIF_TIER=$TIER VERIF_C12_REPLAY="$REPLAY" VERIF_C12_OUT=$ROOT timeout --signal=KILL "$WD" \
+VERIF_TIER=$TIER VERIF_C12_REPLAY="$REPLAY" VERIF_C12_OUT=$OUT timeout --signal=KILL "$WD" \
   cargo test -p penguin-mux --lib --release --no-default-features --features std,tokio "$TESTNAME" -- --nocapture --test-threads 1 >"$LOG" 2>&1
 rc=$?
 grep -E "^(VIOLATION|RESULT|REPLAY|INCONCLUSIVE|KNOWN-FINDING|  scenario)" "$LOG"
